@@ -53,6 +53,22 @@ func (c *Counter) Next() int { c.Calls++; c.N++; return c.N }
 // Label is a pure value-receiver method.
 func (c Counter) Label() string { return fmt.Sprintf("c%d", c.N) }
 
+// BaseRec is embedded BY POINTER in Holder: a nil *BaseRec makes every promoted name unreachable, and
+// reading one must not allocate it.
+type BaseRec struct {
+	ID   int
+	Slug string
+}
+
+// Holder is reached through a pointer, so its fields are settable by reflection.
+type Holder struct {
+	*BaseRec
+	Title string
+	Opt   *Person
+	Notes map[string]interface{}
+	Refs  []string
+}
+
 // Label implements a Stringer-like value.
 type Label struct{ Text string }
 
@@ -165,6 +181,18 @@ func (v *Val) Build(order int) interface{} {
 		return Label{v.S}
 	case "time":
 		return time.Unix(v.I, 0).UTC()
+	case "holder": // *Holder; S = title, I != 0: embedded pointer set (ID = I)
+		h := &Holder{Title: v.S}
+		if v.I != 0 {
+			h.BaseRec = &BaseRec{ID: int(v.I), Slug: "slug-" + v.S}
+		}
+		return h
+	case "holders": // []*Holder
+		out := make([]*Holder, 0, len(v.L)+2)
+		for _, e := range v.L {
+			out = append(out, e.Build(order).(*Holder))
+		}
+		return out
 	case "counters": // []Counter (struct values)
 		out := make([]Counter, 0, len(v.L))
 		for _, e := range v.L {
